@@ -65,6 +65,7 @@ def spec(T, abi, op, params):
     if op == "ctor_s": return params[0]
     if op == "ctor_r": return L(params[0])
     if op == "set_s": return params[1]
+    if op == "aligned_load_s": return ("%s i" % params[1]) if w == 32 else "lane64 %s i" % params[1]
     if op == "reverse": return ("%s (%d - i)" if w == 32 else "lane64 %s (%d - i)") % (params[0], N - 1)
     if re.match(r"^set_s{2,}$", op) and len(params) == N + 1:
         # argument k lands in lane N-1-k (the order of _mm_set_*)
